@@ -84,6 +84,28 @@ TCreate ==
   /\ st' = Obs
   /\ UNCHANGED <<kf, lim, cases, same>>
 
+\* Several creation requests of one user at the same moment (names may repeat).  In whatever order the node
+\* served them: a name is created by at most one request, exactly the created names appear (empty), "exists" is
+\* only said of a name that is there afterwards, a name that was there is never created again, and the user does
+\* not end up above the quota (nor with more collections than before, if the quota was already exceeded by a
+\* changed plan).  A refusal for the quota that changes nothing is accepted as in TCreate.
+TCreateRace ==
+  /\ IsEvent("CreateRace")
+  /\ Functional(Obs)
+  /\ LET R == 1..Len(E.reqs)
+         okNames == {E.reqs[x].c : x \in {y \in R : E.reqs[y].res = "ok"}}
+         had == Cardinality(ColsOf(st, E.u))
+     IN  /\ \A x \in R : E.reqs[x].res \in {"ok", "exists", "quota"}
+         /\ \A x, y \in R : (x # y /\ E.reqs[x].c = E.reqs[y].c) => ~(E.reqs[x].res = "ok" /\ E.reqs[y].res = "ok")
+         /\ \A c \in okNames : ~Has(st, E.u, c)
+         /\ \A x \in R : E.reqs[x].res = "exists" => (Has(st, E.u, E.reqs[x].c) \/ E.reqs[x].c \in okNames)
+         /\ \A x \in R : Has(st, E.u, E.reqs[x].c) => E.reqs[x].res = "exists"
+         /\ Obs = st \cup {[u |-> E.u, c |-> c, k |-> <<>>] : c \in okNames}
+         /\ Cardinality(okNames) <= (IF E.maxCols > had THEN E.maxCols - had ELSE 0)
+         /\ early' = early + Cardinality({x \in R : E.reqs[x].res = "quota" /\ had + Cardinality(okNames) < E.maxCols})
+  /\ st' = Obs
+  /\ UNCHANGED <<kf, lim, cases, same>>
+
 TDeleteCol ==
   /\ IsEvent("DeleteCol")
   /\ Has(st, E.u, E.c) /\ E.res = "ok"
@@ -147,7 +169,7 @@ TInsert ==
   /\ st' = Obs
   /\ UNCHANGED <<kf, lim, cases, same>>
 
-TraceNext == TCase \/ TNode \/ TCreate \/ TDeleteCol \/ TInsert
+TraceNext == TCase \/ TNode \/ TCreate \/ TCreateRace \/ TDeleteCol \/ TInsert
 TraceSpec == TraceInit /\ [][TraceNext]_vars
 
 \* no shard of the model state is above the per-shard maximum
